@@ -103,9 +103,13 @@ FnOps == {"add", "sub", "mul", "div", "rem", "div_euclid", "rem_euclid", "neg", 
           "is_normal", "classify", "from_f32", "from_f64",
           "f64_roundtrip", "str_roundtrip", "new", "load", "to_p8", "to_p16", "to_p32", "const"} \cup IntOps
 
+\* C19: Sample(type) is a nondeterministic action; its whole contract is: a real posit in [0, 1)
+SampleOk(N, ES, r) == IsPattern(N, r) /\ ~IsNaR(N, r) /\ ~Sign(N, r) /\ PLt(N, ES, r, POne(N))
+
 \* operations specified by a relation between operands and result
 Rel(op, sp, N, ES, x, r) ==
-  CASE op = "copysign" -> r \in PCopySignSet(N, ES, x[1], x[2])
+  CASE op = "sample" -> SampleOk(N, ES, r)
+    [] op = "copysign" -> r \in PCopySignSet(N, ES, x[1], x[2])
     [] op = "is_sign_negative" -> IsNaR(N, x[1]) \/ r = PIsNeg(N, ES, x[1])
     [] op = "is_sign_positive" -> IsNaR(N, x[1]) \/ r = ~PIsNeg(N, ES, x[1])
     [] op = "is_positive" -> IsNaR(N, x[1]) \/ r = ~PIsNeg(N, ES, x[1])
@@ -118,7 +122,7 @@ Rel(op, sp, N, ES, x, r) ==
          IsNaR(N, x[1]) \/ r = Low(PToInt(N, ES, 32, TRUE, x[1]), IntW(op))
     [] op \in {"to_u8", "to_u16"} ->
          IsNaR(N, x[1]) \/ r = Low(PToInt(N, ES, 32, FALSE, x[1]), IntW(op))
-RelOps == {"copysign", "is_sign_negative", "is_sign_positive", "is_positive", "is_negative", "to_f32", "to_f64",
+RelOps == {"sample", "copysign", "is_sign_negative", "is_sign_positive", "is_positive", "is_negative", "to_f32", "to_f64",
            "to_i32", "to_u32", "to_i64", "to_u64", "to_isize", "to_usize",
            "to_i8", "to_i16", "to_u8", "to_u16"}
 
